@@ -238,7 +238,9 @@ partial def loop (h : IO.FS.Stream) (d : DS) : IO Unit := do
     loop h d
   if d.fdlimit && ws.head? != some "C" then
     -- conns whose descriptor does not fit the engine's table are refused at the door (addConn / addDialer: test before
-    -- anything else): no open, no close notification, every DialAsync returns the error, nothing for Stop to wait for
+    -- anything else): no open, no close notification, every DialAsync returns the error, nothing for Stop to wait for.
+    -- NOTE: this line is a CONSTANT written here, not computed by any step of StopM / HttpStop / Lmux; no theorem is
+    -- about it. The case kind is judged by its direct oracles (watchdog, panic, census) and two source predicates.
     match ws with
     | "O" :: "run" :: rest =>
       let dials := ((Drv.field rest "dials").map String.toNat!).getD 0
@@ -246,7 +248,9 @@ partial def loop (h : IO.FS.Stream) (d : DS) : IO Unit := do
     | _ => IO.println "R -"; loop h d
   else
   if d.ioblock && ws.head? != some "C" then
-    -- Stop racing a busy read task of the IO pool: Stop returns (the pool's Stop unblocks the hand-over: TPool, C19)
+    -- Stop racing a read hand-over to the IO pool: Stop returns (the pool's Stop unblocks the hand-over).
+    -- NOTE: this line is a CONSTANT written here, not computed by any model step (TPool's Go/Stop are C19's model and
+    -- are not run by this driver); the case kind is judged by its direct oracle (watchdog) only.
     match ws with
     | "O" :: "run" :: rest =>
       if Drv.field rest "skip" == some "1" then do IO.println "R skipped"; loop h d
@@ -286,7 +290,7 @@ partial def loop (h : IO.FS.Stream) (d : DS) : IO Unit := do
   -- hard write error: `c.closed = true` under the mutex, then `closeWithErrorWithoutLock` (same two steps)
   | ["O", "werr", c] => fin (applyActs d [.flip c.toNat!, .teardown c.toNat!])
   -- history: n conns registered, closed together behind one slow close handler and fully notified: the Async queue
-  -- (a FIFO that empties: JobQ) is back where it was, nothing of the burst is left in the state
+  -- (a FIFO that empties: C19's ExecQ with Kind.async) is back where it was, nothing of the burst is left in the state
   | ["O", "burst", _] => fin d
   | ["O", "holdclose"] => fin { d with heldClose := true }
   | ["O", "relclose"] => fin { d with heldClose := false }
